@@ -37,6 +37,11 @@ func rootByName(n string) root {
 			return r
 		}
 	}
+	for _, r := range traitRoots {
+		if r.Name == n {
+			return r
+		}
+	}
 	panic("unknown root " + n)
 }
 
@@ -45,6 +50,9 @@ var schema *mt.Schema
 func initSchema() {
 	var mds []protoreflect.MessageDescriptor
 	for _, r := range roots {
+		mds = append(mds, r.MD())
+	}
+	for _, r := range traitRoots {
 		mds = append(mds, r.MD())
 	}
 	schema = mt.NewSchema(mds...)
@@ -75,6 +83,8 @@ func main() {
 	runWrites(f, res, drv)
 	runSequences(f, res, drv)
 	runRaces(f, res, drv)
+	runTraits(f, res, drv)
+	runIntercepted(f, res, drv)
 	if err := res.Write(f.Out); err != nil {
 		lib.Fatal(err)
 	}
@@ -86,6 +96,14 @@ func replay(f lib.Flags) int {
 		lib.Fatal(err)
 	}
 	b, _ := json.Marshal(rp.Input)
+	var tc tcase
+	if err := json.Unmarshal(b, &tc); err == nil && tc.Trait != "" {
+		return replayTrait(tc)
+	}
+	var ic icase
+	if err := json.Unmarshal(b, &ic); err == nil && ic.Icpt != "" {
+		return replayIcase(ic)
+	}
 	var rc rcase
 	if err := json.Unmarshal(b, &rc); err == nil && rc.Root != "" && rc.Outer.Src != "" {
 		return replayRace(rc)
